@@ -38,6 +38,8 @@ fn main() {
             if let case::Case::C17(c) = &rf.case {
                 println!("doc = {:?} target={:?} radius={} entry={:?}", c.doc.lossy(), c.target, c.radius, c.entry);
                 prop::c17::show(c);
+            } else if let case::Case::C15(c) = &rf.case {
+                prop::c15::show(c);
             } else {
                 println!("{}", serde_json::to_string_pretty(&rf.case).unwrap());
             }
